@@ -149,8 +149,43 @@ def run(prop, tier, seed, workdir, log, families=("mul128", "widen")):
         except mir.Unsupported as e:
             res["inconclusive"].append(("engineM_%s_validation" % ty, "unsupported MIR construct: %s" % e))
             continue
+        def propagate(ty_, fs):
+            """A refuted internal obligation (e.g. "the 256-bit product is exact") is a violation of the property only if it
+            propagates to the returned value or flag: search an operand pair with the exact (non-linear) encoding of the WHOLE
+            function for a spread of fractional-bit counts (the refuted ones and the extremes), and replay it natively."""
+            pick = []
+            for cand_f in (128, 127, 96, 65, 64, fs[-1], fs[len(fs) // 2], fs[0], 1):
+                if cand_f not in pick:
+                    pick.append(cand_f)
+            for f_ in pick[:6]:
+                if state["reproduced"]:
+                    break
+                try:
+                    ctx_e, q_e, _c = mulcheck.build(funcs, ty_, f_, exact=True)
+                    for solver in ("cvc5", "z3-new"):
+                        oe, dte = mulcheck.run_solver(mulcheck.smt_script(ctx_e, q_e, models=True), solver, 20000)
+                        res["solver_s"] += dte
+                        ae, me = mulcheck.parse_answers(oe)
+                        for aa_, mm_ in zip(ae, me):
+                            if aa_ == "sat" and mm_ and len(mm_) == 2 and try_candidate(f_, mm_[0], mm_[1], "solver model, exact product, %s" % solver):
+                                break
+                        if state["reproduced"]:
+                            break
+                except (mir.Unsupported, subprocess.TimeoutExpired):
+                    continue
+
+        nbad = 0
         for f in fracs(tier, seed):
             name = "m_mul_%s_f%d" % (ty, f)
+            if state["reproduced"] or nbad >= 10:
+                # a natively reproduced violation (or ten refuted/undecided obligations) is enough: the remaining counts are not run
+                res["results"].append({"name": name, "verdict": "skipped", "why": "not run after earlier refutations for this type"})
+                continue
+            if nbad == 4 and not state.get("searched"):
+                state["searched"] = True
+                propagate(ty, [int(r["name"].rsplit("_f", 1)[1]) for r in res["results"] if r["verdict"] == "refuted" and ("_%s_" % ty) in r["name"]] or [f])
+                if state["reproduced"]:
+                    continue
             try:
                 t0 = time.time()
                 ctx_a, q_a, ca = mulcheck.build_stage_a(funcs, ty, f)
@@ -192,6 +227,8 @@ def run(prop, tier, seed, workdir, log, families=("mul128", "widen")):
                         verdict, why = "inconclusive", "%s: %s" % (q[0], a_)
                         break
                 res["results"].append({"name": name, "verdict": verdict, "why": why, "queries": len(q_a) + len(q_b), "solver_s": round(dt, 2)})
+                if verdict != "ok":
+                    nbad += 1
                 if len(res["samples"]) < 3 or verdict != "ok":
                     res["samples"].append({"obligation": name, "type": ty, "frac_nbits": f, "queries": [q[0] for q in q_a + q_b][:6], "verdict": verdict,
                                            "answers": {"stage_a_cvc5": ans_a, "stage_b_cvc5": ans_b, "stage_b_z3": ans_z}, "solver_s": round(dt, 2)})
@@ -205,30 +242,7 @@ def run(prop, tier, seed, workdir, log, families=("mul128", "widen")):
                 res["inconclusive"].append((name, "solver time-out"))
         refuted = [r for r in res["results"] if r["verdict"] == "refuted" and ("_%s_" % ty) in r["name"]]
         if refuted and not state["reproduced"]:
-            # A refuted internal obligation (e.g. "the 256-bit product is exact") is a violation of the property only if it
-            # propagates to the returned value or flag: search an operand pair with the exact (non-linear) encoding of the
-            # WHOLE function for a spread of the refuted fractional-bit counts, and replay it natively.
-            fs = sorted(int(r["name"].rsplit("_f", 1)[1]) for r in refuted)
-            pick = []
-            for cand_f in (fs[-1], 64 if 64 in fs else fs[len(fs) // 2], fs[len(fs) // 2], fs[0], fs[-2] if len(fs) > 1 else fs[0]):
-                if cand_f not in pick:
-                    pick.append(cand_f)
-            for f in pick[:4]:
-                if state["reproduced"]:
-                    break
-                try:
-                    ctx_e, q_e, _c = mulcheck.build(funcs, ty, f, exact=True)
-                    for solver in ("cvc5", "z3-new"):
-                        oe, dte = mulcheck.run_solver(mulcheck.smt_script(ctx_e, q_e, models=True), solver, 20000)
-                        res["solver_s"] += dte
-                        ae, me = mulcheck.parse_answers(oe)
-                        for aa_, mm_ in zip(ae, me):
-                            if aa_ == "sat" and mm_ and len(mm_) == 2 and try_candidate(f, mm_[0], mm_[1], "solver model, exact product, %s" % solver):
-                                break
-                        if state["reproduced"]:
-                            break
-                except (mir.Unsupported, subprocess.TimeoutExpired):
-                    continue
+            propagate(ty, sorted(int(r["name"].rsplit("_f", 1)[1]) for r in refuted))
         if refuted and not state["reproduced"]:
             res["inconclusive"].append(("m_mul_%s" % ty, "solver refuted %d obligation(s) (%s) but no operand pair reproduced natively" % (len(refuted), refuted[0]["why"])))
         elif not refuted and cands and not state["reproduced"]:
